@@ -360,9 +360,11 @@ static void RunCase(long k, uint64_t cs)
                 if (!spec) { vh::stat("unspecified_arg_outside_repertoire"); if (!SameS(r, std::string(r()))) Fail("result is not a valid string"); break; }
                 EqS(r, w, "Arg"); if (!caseBad && w.size() <= maxGrow && nn && R(4)) { S = r; M = w; } } break;
       // ---------------- prefix / suffix family
-      case 47: case 48: { String t; std::string v; const String & a = SArg(v, t); char c = (M.size() && R(2)) ? (R(2) ? M[0] : M[M.size() - 1]) : GenChar(); int f = (int)R(4); if (M.size() + v.size() > maxGrow) break; OP("WithPrefixSuffix form=%d %s %02x", f, Q(v, 24).c_str(), (unsigned char)c);
+      case 47: case 48: { String t; std::string v; const String & a = SArg(v, t); char c = (M.size() && R(2)) ? (R(2) ? M[0] : M[M.size() - 1]) : GenChar(); int f = (int)R(4); if (M.size() + v.size() > maxGrow) break;
+                if (f < 2 && M.size() > 1 && R(4) == 0) { uint32 n = 2 + R(std::min((uint32)M.size() - 1, 4u)); v = f == 0 ? M.substr(M.size() - n) : M.substr(0, n); size_t at = f == 0 ? 0 : v.size() - 1; char oc = v[at]; do v[at] = GenChar(); while (v[at] == oc); vh::stat("near_affix_operands"); }   // all but one character of an affix
+                String nearT(v.c_str()); const String & a2 = (a() == v) ? a : nearT; OP("WithPrefixSuffix form=%d %s %02x", f, Q(v, 24).c_str(), (unsigned char)c);
                 bool ends = M.size() >= v.size() && M.compare(M.size() - v.size(), v.size(), v) == 0, starts = M.size() >= v.size() && M.compare(0, v.size(), v) == 0;
-                if (f == 0) Res(S.WithSuffix(a), ends ? M : M + v, "WithSuffix(String)"); else if (f == 1) Res(S.WithPrefix(a), starts ? M : v + M, "WithPrefix(String)");
+                if (f == 0) Res(S.WithSuffix(a2), ends ? M : M + v, "WithSuffix(String)"); else if (f == 1) Res(S.WithPrefix(a2), starts ? M : v + M, "WithPrefix(String)");
                 else if (f == 2) Res(S.WithSuffix(c), (M.size() && M[M.size() - 1] == c) ? M : M + c, "WithSuffix(char)"); else Res(S.WithPrefix(c), (M.size() && M[0] == c) ? M : c + M, "WithPrefix(char)"); } break;
       case 49: case 50: case 51: { String t; std::string v; const String & a = SArg(v, t); uint32 n = Cnt(); bool ic = R(3) == 0, suffix = R(2), isChar = R(3) == 0; char ch = (M.size() && R(4)) ? (suffix ? M[M.size() - 1] : M[0]) : GenChar(); if (ic && R(2)) ch = Flip(ch);
                 if (isChar) v = std::string(1, ch);
